@@ -444,8 +444,15 @@ func (d *drv) matchOrAlt(s core.Step, obs map[string]any) any {
 	return obs
 }
 
+func (d *drv) connectMode() string {
+	if d.env.Opt("peer", "0") == "1" {
+		return "connectpeer"
+	}
+	return "connect"
+}
+
 func (d *drv) endBlock(s core.Step) (any, any, error) {
-	rep, err := d.child.call(&Cmd{Cmd: "block", Items: d.items, Mode: "connect", Reps: 1}, callTimeout)
+	rep, err := d.child.call(&Cmd{Cmd: "block", Items: d.items, Mode: d.connectMode(), Reps: 1}, callTimeout)
 	if err != nil {
 		return nil, nil, err
 	}
@@ -521,7 +528,7 @@ func (d *drv) run(s core.Step) (any, any, error) {
 			return nil, nil, err
 		}
 		for _, b := range d.hist {
-			r, err := c.call(&Cmd{Cmd: "block", Items: b, Mode: "connect", Reps: 1}, callTimeout)
+			r, err := c.call(&Cmd{Cmd: "block", Items: b, Mode: d.connectMode(), Reps: 1}, callTimeout)
 			if err != nil {
 				return nil, nil, err
 			}
@@ -529,7 +536,7 @@ func (d *drv) run(s core.Step) (any, any, error) {
 				return nil, nil, fmt.Errorf("fresh child refused a block of the prior chain: %s", r.Outs[0].Err)
 			}
 		}
-		r, err := c.call(&Cmd{Cmd: "block", Items: d.items, Mode: "connect", Reps: reps}, callTimeout)
+		r, err := c.call(&Cmd{Cmd: "block", Items: d.items, Mode: d.connectMode(), Reps: reps}, callTimeout)
 		if err != nil {
 			return nil, nil, err
 		}
